@@ -165,6 +165,21 @@ func (c *coreScript) resolve(m *coreMarket, status int, winner int) {
 	}
 }
 
+func (c *coreScript) withdraw(m *coreMarket, who int, idx uint64, mode int, amount int64) {
+	tk := c.e.Ticket(0, map[string]interface{}{"kyc_data": map[string]interface{}{"ignore": true, "approved": false, "id": ""}})
+	c.out.Op("HW %d 1 1 0 999999 %d %d %d %d 0", who, m.n, idx, mode, amount)
+	pre := captureHouse(c.e, 0, who, 1, m.uid, idx)
+	err, _ := c.e.Tx(func(ctx sdk.Context) error {
+		_, err := c.hs.Withdraw(sdk.WrapSDKContext(ctx), &housetypes.MsgWithdraw{Creator: c.e.Accts[who].String(), MarketUID: m.uid, ParticipationIndex: idx,
+			Mode: housetypes.WithdrawalMode(mode), Amount: sdkmath.NewInt(amount), Ticket: tk})
+		return err
+	})
+	c.finish(err)
+	if err == nil {
+		withdrawMonitor(c.out, c.h, c.e, c.ix, pre, who, 0, m.uid, idx)
+	}
+}
+
 func (c *coreScript) endBlock() {
 	c.out.Op("EB")
 	preD := dumpCore(c.e, c.ix)
@@ -244,6 +259,40 @@ func runCoreScripted(seed uint64, n int, out *Out) {
 			for i := 0; i < 8; i++ {
 				c.endBlock()
 			}
+		},
+		// 4: bets on two outcomes of one participation in the same round (the second outcome becomes the worst case
+		//    without being the tracked one), then a full withdrawal, then the second outcome wins
+		func(h int) {
+			c := newCoreScript(out, h, 100, 0, 2, 1, 0, 1000, 100)
+			m := c.market(2)
+			c.deposit(m, 1, 10000)
+			c.wager(m, 6, 0, "5", 1001)
+			c.wager(m, 7, 1, "5.5", 1001)
+			c.withdraw(m, 1, 1, 1, 0)
+			c.endBlock()
+			c.resolve(m, 5, 1)
+			c.endBlock()
+			c.endBlock()
+		},
+		// 5: a participation is used up on both outcomes and re-queued, then sits unused; declared result
+		//    (fee routing of a re-queued participation) and, on a second market, cancellation after a re-queue
+		func(h int) {
+			c := newCoreScript(out, h, 100, 100000000000000000, 2, 1, 0, 1000, 100)
+			m := c.market(2)
+			c.deposit(m, 1, 10000)
+			c.deposit(m, 2, 10000)
+			c.wager(m, 6, 0, "2", 9001)
+			c.wager(m, 7, 1, "3", 4501)
+			m2 := c.market(2)
+			c.deposit(m2, 3, 10000)
+			c.wager(m2, 8, 0, "2", 9001)
+			c.wager(m2, 9, 1, "3", 4501)
+			c.endBlock()
+			c.resolve(m, 5, 0)
+			c.resolve(m2, 3, 0)
+			c.endBlock()
+			c.endBlock()
+			c.endBlock()
 		},
 	}
 	for h, f := range scripts {
